@@ -74,6 +74,9 @@ CHECKS = {
  'C43': dict(cat='proof', tech='deductive: postconditions on the real ControlConnection._get_schema_mismatches (version sets enumerated symbolically), wait_for_schema_agreement (symbolic clock, bounded polls), refresh_schema_and_set_result and the SCHEMA_CHANGE branch of ResponseFuture._set_result',
              text='Agreement is reported iff exactly one schema version is seen among the control host and the live known peers; the wait loop returns True only on agreement and False only after the deadline; the future flag is False until the wait finishes. Poll count is bounded at 3 (loop unrolled).',
              ref='DESIGN.md §4 C43'),
+ 'C42': dict(cat='proof', tech='deductive: postconditions over a ghost notification log on the real ControlConnection._refresh_node_list_and_token_map, _is_valid_peer, _update_location_info, Cluster.add_host/remove_host, Metadata host-table methods; row kinds and prior host sets enumerated as symbolic choices',
+             text='Every single refresh is verified from an arbitrary prior host set for snapshots of up to 2 (thorough: 3) peer rows of all 8 row kinds; sequences of snapshots follow by composition. The token-change-without-membership-change clause is a recorded known finding.',
+             ref='DESIGN.md §4 C42'),
 }
 
 NA_REASON = {}
